@@ -340,7 +340,7 @@ class MementoFunction(MementoFunctionBase):
         version_salt: str = None,
     ) -> MementoFunctionType:
         """Re-constructs a clone of this function, modifying one or more attributes"""
-        return MementoFunction(
+        clone = MementoFunction(
             fn=fn or self.fn,
             src_fn=src_fn or self.src_fn,
             cluster_name=cluster_name or self.cluster_name,
@@ -356,6 +356,10 @@ class MementoFunction(MementoFunctionBase):
             version_salt=version_salt or self._constructor_provided_version_salt,
             register_fn=False,
         )
+        # A clone carries the version of its original as an explicit one. The original decides
+        # whether that version is automatic (and hence which calls the clone may make).
+        clone._clone_of = getattr(self, "_clone_of", None) or self
+        return clone
 
     def call(self, *args, **kwargs):
         self._validate_dependency()
@@ -569,6 +573,9 @@ class MementoFunction(MementoFunctionBase):
             frame.memento.invocation_metadata.fn_reference_with_args.fn_reference
         )
         caller = cast(MementoFunctionType, caller_ref.memento_fn)
+        # A modifier clone (force_local(), partial(), with_context_args(), ...) is checked like
+        # the function it was made from
+        caller = getattr(caller, "_clone_of", None) or caller
         if caller.explicit_version is not None:
             # Caller has declared version explicitly, so there is no need to worry that
             # dependencies were not detected properly. Carry on.
